@@ -43,7 +43,7 @@ def strategy(tier, phase):
     mut = st.tuples(st.integers(0, N_MUT - 1), st.integers(0, 50), st.integers(0, 50)).map(list)
     bedit = st.tuples(st.integers(0, 3), st.integers(0, 4000), st.integers(0, 255)).map(list)
     return st.fixed_dictionaries(
-        {"gen": st.just(2), "tape": protogen.tape_strategy(300), "irv": st.sampled_from([0, 0, 11, 13, 8]),
+        {"gen": st.sampled_from([2, 3, 3]), "tape": protogen.tape_strategy(300), "irv": st.sampled_from([0, 0, 11, 13, 8]),
          "muts": st.lists(mut, min_size=0, max_size=5), "bytes": st.one_of(st.just([]), st.just([]), st.lists(bedit, min_size=1, max_size=6))}
     )
 
